@@ -17,6 +17,7 @@ mod oracle;
 mod panics;
 mod subjects;
 mod sweeps;
+mod zst;
 mod track;
 
 #[global_allocator]
